@@ -12,6 +12,9 @@
    enumerated.  Where a cryptographic property is needed (`secret_store_rejects`) it is a
    hypothesis (injectivity of flip-then-hash), never an axiom. -/
 import LdkModel.Proofs.Secrets
+import LdkModel.Proofs.RaaGate
+import LdkModel.Proofs.HolderGate
+import LdkModel.Props.ChanProto
 namespace Ldk.C05
 open Ldk.Secrets
 
@@ -271,6 +274,258 @@ example : Params48.B = 48 ∧ (Store.new Params48).length = 49 := by decide
 #guard buildCommitmentSecret Params48 (List.replicate 32 0xff) 0xaaaaaaaaaaa ==
   [0x56,0xf4,0x00,0x8f,0xb0,0x07,0xca,0x9a,0xcf,0x0e,0x15,0xb0,0x54,0xd5,0xc9,0xfd,
    0x12,0xee,0x06,0xce,0xa3,0x47,0x91,0x4d,0xdb,0xae,0xd7,0x0d,0x1c,0x13,0xa5,0x28]
+
+/-! ### Channel level, receiving side: a `revoke_and_ack` is accepted only while one is owed
+    Model/RaaGate.lean.  The guard chain `RaaGuard.check`, the commitment-number expressions
+    (`validateIdx`, `provideIdx`, `monitorIdx`) and the state step `RaaGuard.accept` are GENERATED from the
+    text of `FundedChannel::revoke_and_ack` on every run (tools/gen_raa_guard.py, including the bodies of the
+    `ChannelContext` bool helpers a guard calls); the theorems below are about those generated definitions,
+    for every state, every message and every op sequence of an ARBITRARY peer. -/
+
+section RaaGate
+open Ldk.RaaGate Ldk.RaaGuard
+variable {Pt : Type} [DecidableEq Pt]
+
+/-- **raa_accepted_only_when_awaiting** — whenever `revoke_and_ack` returns Ok (in ANY state, for ANY
+    message): the channel was AwaitingRemoteRevoke (a commitment_signed of ours is outstanding), operational,
+    connected and not quiescent; the secret is a valid key whose public key is the commitment point the peer
+    announced for its current commitment; signer and store were asked about commitment number
+    `counterparty_next_commitment_transaction_number + 1` and accepted; exactly that `(number, secret)` goes to
+    the store and into the CommitmentSecret monitor update; the number moves down by exactly one, the flag is
+    cleared, the points rotate.  Nothing else of the modelled state changes. -/
+theorem raa_accepted_only_when_awaiting (w : World S Pt) (c c' : Side S Pt) (m : Raa S Pt)
+    (h : recvRaa w c m = some c') :
+    c.st.awaitingRemoteRevoke = true ∧
+    c.env.channelReady = true ∧ c.env.peerDisconnected = false ∧ c.env.quiescent = false ∧
+    (∀ p, c.st.cpCurPoint = some p → w.pointOf m.secret = some p) ∧ (w.pointOf m.secret).isSome = true ∧
+    w.signerOk (c.st.cpNext + 1) m.secret = true ∧
+    provideSecret w.P c.store (c.st.cpNext + 1) m.secret = some c'.store ∧
+    c'.accepted = (c.st.cpNext + 1, m.secret) :: c.accepted ∧
+    c'.st.cpNext = c.st.cpNext - 1 ∧ c'.st.awaitingRemoteRevoke = false ∧
+    c'.st.cpCurPoint = c.st.cpNextPoint ∧ c'.st.cpNextPoint = some m.next ∧
+    c'.signed = c.signed ∧ c'.env = c.env := by
+  obtain ⟨hc, st', hp, rfl⟩ := recvRaa_some h
+  obtain ⟨h1, h2, h3, _, h5, h6, h7, h8, _⟩ := check_none _ hc
+  refine ⟨h7, h2, h3, h1, ?_, h5, h8, hp, rfl, rfl, rfl, rfl, rfl, rfl, rfl⟩
+  intro p hp'
+  have h6' := h6 (by show (c.st.cpCurPoint).isSome = true; rw [hp']; rfl)
+  have h5' : (w.pointOf m.secret).isSome = true := h5
+  change (match c.st.cpCurPoint, w.pointOf m.secret with
+      | some p, some q => decide (p = q)
+      | _, _ => true) = true at h6'
+  rw [hp'] at h6'
+  cases hq : w.pointOf m.secret with
+  | none => rw [hq] at h5'; cases h5'
+  | some q => rw [hq] at h6'; simp only [decide_eq_true_eq] at h6'; rw [h6']
+
+/-- **unsolicited_raa_refused** — while no revocation is outstanding EVERY revoke_and_ack is refused, whatever
+    it contains and whatever else is pending on the channel (uncommitted updates of either side, fee updates,
+    `expecting_peer_commitment_signed`, shutdown …): an error is returned and nothing is written. -/
+theorem unsolicited_raa_refused (w : World S Pt) (c : Side S Pt) (m : Raa S Pt)
+    (h : c.st.awaitingRemoteRevoke = false) :
+    recvRaa w c m = none ∧ ∃ e, outcome w c m = some e := by
+  cases hr : recvRaa w c m with
+  | some c' => have := (raa_accepted_only_when_awaiting w c c' m hr).1; rw [h] at this; cases this
+  | none =>
+    refine ⟨rfl, ?_⟩
+    cases ho : outcome w c m with
+    | some e => exact ⟨e, rfl⟩
+    | none =>
+      have := (check_none _ ho).2.2.2.2.2.2.1
+      have : c.st.awaitingRemoteRevoke = true := this
+      rw [h] at this; cases this
+
+/-- conversely the generated chain asks for nothing more: operational + connected + valid matching secret +
+    awaiting + signer and store agree ⇒ accepted (no honest revoke_and_ack is refused) -/
+theorem solicited_raa_accepted (w : World S Pt) (c : Side S Pt) (m : Raa S Pt) (p : Pt)
+    (h1 : c.env.quiescent = false) (h2 : c.env.channelReady = true) (h3 : c.env.peerDisconnected = false)
+    (h4 : c.env.bothSidesShutdown = false) (hp : w.pointOf m.secret = some p) (hc : c.st.cpCurPoint = some p)
+    (h7 : c.st.awaitingRemoteRevoke = true) (h8 : w.signerOk (c.st.cpNext + 1) m.secret = true)
+    (h9 : (provideSecret w.P c.store (c.st.cpNext + 1) m.secret).isSome = true) :
+    (recvRaa w c m).isSome = true := by
+  have hk : check (inOf w c m) = none := by
+    apply check_none_of
+    · exact h1
+    · exact h2
+    · exact h3
+    · show (c.env.bothSidesShutdown && c.env.lastSentClosingFeeSome) = false
+      rw [h4]; rfl
+    · show (w.pointOf m.secret).isSome = true
+      rw [hp]; rfl
+    · intro _
+      show (match c.st.cpCurPoint, w.pointOf m.secret with
+        | some p, some q => decide (p = q)
+        | _, _ => true) = true
+      rw [hc, hp]; simp
+    · exact h7
+    · exact h8
+    · exact h9
+  unfold recvRaa outcome
+  rw [hk]
+  simp only [Option.isSome_none, Bool.false_eq_true, if_false, Option.isSome_map]
+  exact h9
+
+/-- **commitment_numbers_step_by_one** — for EVERY sequence of {we sign a counterparty commitment, the peer
+    sends any revoke_and_ack, anything else changes arbitrarily} from a channel whose next counterparty
+    commitment number is `n0`: the number has moved down by exactly one per ACCEPTED revoke_and_ack; accepted
+    revocations never outnumber signed commitments and at most one signed commitment is unrevoked — exactly
+    when AwaitingRemoteRevoke is set; the commitment numbers handed to the store / the monitor are
+    `n0 + 1, n0, n0 − 1, …` without gap or repetition (the descending order the secret-store theorems
+    assume); and the store is exactly the result of providing those secrets in that order. -/
+theorem commitment_numbers_step_by_one (w : World S Pt) (n0 : Nat) (st0 : Store S) (cur nxt : Option Pt)
+    (ops : List (Op S Pt)) (c : Side S Pt) (h : RaaGate.run w (Side.init n0 st0 cur nxt) ops = some c) :
+    c.st.cpNext = n0 - c.accepted.length ∧
+    c.accepted.length ≤ c.signed ∧ c.signed ≤ c.accepted.length + 1 ∧
+    (c.st.awaitingRemoteRevoke = true ↔ c.signed = c.accepted.length + 1) ∧
+    c.accepted.map (·.1) = idxs n0 c.accepted.length ∧
+    replay w.P st0 c.accepted = some c.store := by
+  have inv := Inv.run ops _ c (Inv.init w n0 st0 cur nxt) h
+  have hc := inv.cnt
+  refine ⟨inv.num, ?_, ?_, ?_, inv.idx, inv.sto⟩
+  · split at hc <;> omega
+  · split at hc <;> omega
+  · cases hw : c.st.awaitingRemoteRevoke <;> simp [hw] at hc ⊢ <;> omega
+
+/-- the numbers are consecutive: `idxs n0 k = [n0 + 2 − k, …, n0, n0 + 1]` (newest first) -/
+theorem idxs_spec (n0 : Nat) : ∀ k, (idxs n0 k).length = k ∧ ∀ j, j < k → (idxs n0 k)[j]? = some (n0 - (k - 1 - j) + 1)
+  | 0 => ⟨rfl, fun _ hj => by omega⟩
+  | k + 1 => by
+    obtain ⟨hl, hg⟩ := idxs_spec n0 k
+    refine ⟨by simp [idxs, hl], ?_⟩
+    intro j hj
+    cases j with
+    | zero => simp [idxs]
+    | succ j =>
+      simp only [idxs, List.getElem?_cons_succ]
+      rw [hg j (by omega)]
+      congr 2
+      omega
+
+/-- **chan_model_raa_gate_is_generated_guard** — the two-party protocol model (Model/Channel.lean, the model
+    of `counters`, `at_most_one_outstanding`, `raa_only_after_cs`, C01's agreement) processes a revoke_and_ack
+    exactly when the GENERATED guard chain accepts it on that node's state (connected; the message itself
+    well-formed): its hand-written `if !awaitingRaa then none` is the guard the code has. -/
+theorem chan_model_raa_gate_is_generated_guard (n : Chan.Node) (e : Bool) (hc : n.paused = false) :
+    (Chan.Node.onRaa n).isSome = (check (inOfNode n e)).isNone := by
+  cases ha : n.awaitingRaa
+  · have h1 : Chan.Node.onRaa n = none := by unfold Chan.Node.onRaa; simp [ha]
+    rw [h1]
+    cases hk : check (inOfNode n e) with
+    | some _ => rfl
+    | none =>
+      have := (check_none _ hk).2.2.2.2.2.2.1
+      have : n.awaitingRaa = true := this
+      rw [ha] at this; cases this
+  · have h1 : (Chan.Node.onRaa n).isSome = true := by unfold Chan.Node.onRaa; simp [ha]
+    rw [h1]
+    have hk : check (inOfNode n e) = none := by
+      apply check_none_of <;> first | rfl | exact hc | exact ha | (intro _; rfl)
+    rw [hk]; rfl
+
+/-- **raa_guard_accepts_only_outstanding** — in every run of the two-party protocol (all interleavings,
+    disconnections anywhere): whenever the generated guard chain would accept a revoke_and_ack at a node, that
+    node has signed exactly one commitment more than the peer has revoked (`csSent = raaRecv + 1`); processing
+    it restores `csSent = raaRecv`: commitment numbers move by one per commitment_signed / revoke_and_ack pair. -/
+theorem raa_guard_accepts_only_outstanding (va vb f0 : Nat) (evs : List Chan.Ev) (s : Chan.Sys)
+    (h : Chan.run (Chan.Sys.init va vb f0) evs = some s) (e : Bool) :
+    (check (inOfNode s.a e) = none → s.a.csSent = s.a.raaRecv + 1 ∧
+        ∃ n', Chan.Node.onRaa s.a = some n' ∧ n'.csSent = n'.raaRecv ∧ n'.awaitingRaa = false) ∧
+    (check (inOfNode s.b e) = none → s.b.csSent = s.b.raaRecv + 1 ∧
+        ∃ n', Chan.Node.onRaa s.b = some n' ∧ n'.csSent = n'.raaRecv ∧ n'.awaitingRaa = false) := by
+  obtain ⟨_, _, ha, hb⟩ := ChanProto.at_most_one_outstanding va vb f0 evs s h
+  have key : ∀ n : Chan.Node, (n.awaitingRaa = true ↔ n.csSent = n.raaRecv + 1) → check (inOfNode n e) = none →
+      n.csSent = n.raaRecv + 1 ∧ ∃ n', Chan.Node.onRaa n = some n' ∧ n'.csSent = n'.raaRecv ∧ n'.awaitingRaa = false := by
+    intro n hn hk
+    have hw : n.awaitingRaa = true := (check_none _ hk).2.2.2.2.2.2.1
+    have hcs := hn.1 hw
+    refine ⟨hcs, ?_⟩
+    unfold Chan.Node.onRaa
+    simp only [hw, Bool.not_true, Bool.false_eq_true, if_false]
+    exact ⟨_, rfl, by simp only; omega, rfl⟩
+  exact ⟨key s.a ha, key s.b hb⟩
+
+/-! non-vacuity (width-5 symbolic store, points = hash of the secret) -/
+def W5 : World Sym Sym := { P := P5, pointOf := fun s => if s = .zero then none else some (.hash s), signerOk := fun _ _ => true }
+def side0 : Side Sym Sym := Side.init 30 (Store.new P5) (some (.hash (secretFor P5 .seed 31))) (some (.hash (secretFor P5 .seed 30)))
+def raaOf (i : Nat) : Raa Sym Sym := { secret := secretFor P5 .seed i, next := .hash (secretFor P5 .seed (i - 2)) }
+
+-- sign, revoke, sign, revoke: two accepted revocations for the numbers 31, 30; the number went 30 → 28
+example : (RaaGate.run W5 side0 [.sign, .raa (raaOf 31), .sign, .raa (raaOf 30)]).map
+    (fun c => (c.st.cpNext, c.signed, c.accepted.map (·.1), c.st.awaitingRemoteRevoke)) = some (28, 2, [30, 31], false) := by decide
+-- the same revoke_and_ack without a commitment_signed of ours outstanding — idle, or with an uncommitted update of
+-- the peer pending (RemoteAnnounced HTLC), or twice — is refused and moves nothing
+example : (RaaGate.run W5 side0 [.raa (raaOf 31)]).map (fun c => (c.st.cpNext, c.accepted.length)) = some (30, 0) := by decide
+example : outcome W5 side0 (raaOf 31) = some .unexpected := by decide
+example : outcome W5 { side0 with env := { inb := [.remoteAnnounced], expectingPeerCommitmentSigned := true, pendingUpdateFeeSome := true } } (raaOf 31)
+    = some .unexpected := by decide
+example : (RaaGate.run W5 side0 [.sign, .raa (raaOf 31), .raa (raaOf 30)]).map (fun c => (c.st.cpNext, c.accepted.length)) = some (29, 1) := by decide
+-- a secret that is not the one behind the announced point is refused although a revocation is owed
+example : outcome W5 { side0 with st := { side0.st with awaitingRemoteRevoke := true } } (raaOf 30) = some .secretMismatch := by decide
+example : (recvRaa W5 { side0 with st := { side0.st with awaitingRemoteRevoke := true } } (raaOf 31)).isSome = true := by decide
+-- the protocol model: a's first revoke_and_ack arrives while a awaits it
+example : (Chan.run (Chan.Sys.init 10 10) [.commit true [3] [] [], .release true, .recv false, .recv false, .sendRaa false]).map
+    (fun s => (check (inOfNode s.a false)).isNone && (check (inOfNode s.b false)).isSome) = some true := by decide
+
+end RaaGate
+
+/-! ### Holder side: the monitor never signs a revoked holder commitment; a signed state is never revoked
+    Model/HolderGate.lean; `noFurtherUpdatesAllowed`, `isPreCloseStep`, `updateOk` (update_monitor's final refusal
+    decision) and `chainMonitorDefers` (ChainMonitor::update_channel_internal) are GENERATED from channelmonitor.rs /
+    chainmonitor.rs (tools/gen_holder_gate.py). -/
+
+section HolderGate
+open Ldk.HolderGate
+
+/-- **never_sign_revoked_holder** — for EVERY sequence of {commitment_signed accepted (persister answers Completed or
+    InProgress), in-flight update completes, the monitor signs its latest holder commitment / an HTLC transaction on it,
+    ChannelForceClosed, funding spend seen, channel closed, crash + reload}: no holder commitment number that was ever
+    handed to the signer has had its secret released — neither before the signature request ("never signs a revoked
+    commitment") nor at any later time ("a broadcast state is never revoked") — every released secret belongs to a
+    number strictly above (older than) the monitor's current holder commitment, and once anything was signed
+    `holder_tx_signed` stays set. -/
+theorem never_sign_revoked_holder (n0 : Nat) (evs : List HolderGate.Ev) (s : HolderGate.Sys)
+    (h : HolderGate.run (HolderGate.Sys.init n0) evs = some s) :
+    (∀ n ∈ s.signReq, n ∉ s.released) ∧ (∀ n ∈ s.released, s.monCur < n) ∧
+    (s.signReq ≠ [] → s.flags.holderTxSigned = true) ∧ s.monCur = s.chanCur := by
+  have inv := HolderGate.Inv.run evs _ s (HolderGate.Inv.init n0) h
+  exact ⟨fun n hn => (inv.i5 n hn).1, inv.i1, inv.i4, inv.i2⟩
+
+/-- **signed_state_never_revoked** — once `holder_tx_signed` is set (also after a reload: the flag is serialized), a further
+    holder-commitment update is applied to the monitor but REFUSED (update_monitor returns Err), the ChainMonitor never
+    reports it Completed at once, and the revoke_and_ack it gates is held frozen: the set of released secrets does
+    not grow by that step, whatever the persister answers. -/
+theorem signed_state_never_revoked (s s' : HolderGate.Sys) (pc : Bool) (hs : s.flags.holderTxSigned = true)
+    (h : HolderGate.step s (.csRecv pc) = some s') :
+    updateOk true s.flags [.latestHolderCommitmentTXInfo] = false ∧
+    s'.released = s.released ∧ s'.inflight = some (s.chanCur, true) ∧ s'.monCur = s.chanCur - 1 := by
+  obtain ⟨h1, h2⟩ := signed_refuses s.flags hs pc
+  have hn : noFurtherUpdatesAllowed s.flags = true := by simp [noFurtherUpdatesAllowed, hs]
+  have hu : updateOk true s.flags [.latestHolderCommitmentTXInfo] = false := by simp [updateOk, hn, isPreCloseStep]
+  simp only [HolderGate.step] at h
+  split at h
+  · cases h
+  · rw [h1] at h
+    simp only [Bool.false_eq_true, if_false, Option.some.injEq] at h
+    subst h
+    exact ⟨hu, rfl, by simp [h2], rfl⟩
+
+/-- the refusal covers exactly the update kinds a live channel generates: a CommitmentSecret (the PEER's revocation)
+    and both commitment kinds are refused after the close, preimages / ChannelForceClosed / ReleasePaymentComplete are not -/
+theorem post_close_refusal_kinds (f : Flags) (hf : noFurtherUpdatesAllowed f = true) (st : Step) :
+    updateOk true f [st] = !isPreCloseStep st := by
+  simp [updateOk, hf]
+
+-- non-vacuity: two updates complete (secrets 10, 9 released), the monitor signs number 8, a further commitment_signed is
+-- applied (monitor at 7) but its revoke_and_ack stays frozen, also across a reload; 8 is never released
+example : (HolderGate.run (HolderGate.Sys.init 10) [.csRecv true, .csRecv false, .complete, .sign, .csRecv true, .restart, .complete]) = none := by decide
+example : (HolderGate.run (HolderGate.Sys.init 10) [.csRecv true, .csRecv false, .complete, .sign, .csRecv true, .restart]).map
+    (fun s => (s.released, s.signReq, s.monCur, s.inflight)) = some ([9, 10], [8], 7, some (8, true)) := by decide
+-- an update in flight when the monitor signs: the completion releases the OLDER number 10, the signature was for 9
+example : (HolderGate.run (HolderGate.Sys.init 10) [.csRecv false, .sign, .complete]).map
+    (fun s => (s.released, s.signReq)) = some ([10], [9]) := by decide
+example : isPreCloseStep .commitmentSecret = true ∧ isPreCloseStep .paymentPreimage = false := by decide
+
+end HolderGate
 
 /-! ### Channel-level theorems (integrator)
     `revoke_only_after_newer_signed`, `never_sign_revoked_holder`, `at_most_one_outstanding`,
